@@ -86,6 +86,16 @@ Definition k_table (c : kcase) : list (N * bool) :=
          | Some (ok, r) => ok && same_result r (k_final c) && negb (w_lock r)
          | None => true
          end);
+    (* C02 under disturbance: no object that was in the cache before changed bytes or disappeared *)
+    (48, forallb (fun kv => match alookup (fst kv) (w_cache (k_cut c)) with
+                            | Some o => beqb (o_data o) (o_data (snd kv))
+                            | None => false end) (w_cache (k_pre c)) &&
+         match k_retry c with
+         | Some (_, r) => forallb (fun kv => match alookup (fst kv) (w_cache r) with
+                                             | Some o => beqb (o_data o) (o_data (snd kv))
+                                             | None => false end) (w_cache (k_pre c))
+         | None => true
+         end);
     (* C04 (weaker half of 46, reported separately): the retry succeeds and loses nothing *)
     (47, match k_retry c with
          | Some (ok, r) => ok && spec_no_loss (k_pre c) r
